@@ -41,6 +41,13 @@ def _sn(name):
 
 
 def make_tensor(kind: str):
+    t = _make_tensor(kind)
+    if kind != "proto":          # (the proto-backed tensor carries its own, in the proto)
+        t.metadata_props["vf.kind"] = kind      # tensor metadata must survive whatever the storage path is
+    return t
+
+
+def _make_tensor(kind: str):
     if kind == "np":
         return ir.Tensor(np.array([1.5], dtype=np.float32))
     if kind == "lazy":
